@@ -1252,8 +1252,7 @@ func runC18(c *Check, a *Analysis) {
 	} else {
 		n := 0
 		eachInstr(dt, func(in ssa.Instruction) {
-			g, ok := in.(*ssa.Go)
-			if !ok || calleeNameCommon(g.Common()) != "(*Client).check" {
+			if !startsProbe(in) {
 				return
 			}
 			n++
@@ -1295,10 +1294,7 @@ func runC18(c *Check, a *Analysis) {
 			_, tr, miss := p.reachFromBlock(dt, e.to, func(x ssa.Instruction) bool {
 				_, isNext := x.(*ssa.Next)
 				return isNext || isReturnLike(x)
-			}, func(x ssa.Instruction) bool {
-				g, ok := x.(*ssa.Go)
-				return ok && calleeNameCommon(g.Common()) == "(*Client).check"
-			}, nil)
+			}, startsProbe, nil)
 			c.Ob("R-ALIVE-FLAG", sc.key(dt, "every dead target is probed"), p.InstrPos(e.to.Instrs[0]), !miss, ifs(miss, "a not-alive target can be skipped by the detector ("+p.lineTrail(tr)+"): it is never used again after it recovers"))
 		}
 	}
@@ -1396,4 +1392,32 @@ func latencyAssignments(tu *ssa.Function) []latAssign {
 		out = append(out, latAssign{cc.Call.Args[1], in})
 	})
 	return out
+}
+
+// startsProbe: `go c.check(t)`, or a goroutine whose body calls check.
+func startsProbe(x ssa.Instruction) bool {
+	g, ok := x.(*ssa.Go)
+	if !ok {
+		return false
+	}
+	if calleeNameCommon(g.Common()) == "(*Client).check" {
+		return true
+	}
+	var cl *ssa.Function
+	switch v := g.Common().Value.(type) {
+	case *ssa.MakeClosure:
+		cl, _ = v.Fn.(*ssa.Function)
+	case *ssa.Function:
+		cl = v
+	}
+	if cl == nil || cl.Blocks == nil {
+		return false
+	}
+	found := false
+	eachInstr(cl, func(in ssa.Instruction) {
+		if cc, ok := in.(ssa.CallInstruction); ok && calleeName(cc) == "(*Client).check" {
+			found = true
+		}
+	})
+	return found
 }
